@@ -897,8 +897,13 @@ class ExcelCompiler:
                 else:
                     self.log.info(
                         f"Cell {cell.address} evaluated to '{value}' ({type(value).__name__})")
-                cell.value = (value[0][0] if list_like(value[0]) else value[0]
-                              ) if list_like(value) else value
+                if list_like(value):
+                    value = value[0][0] if list_like(value[0]) else value[0]
+                    if value is None:
+                        # an empty cell is zero as a formula result (as in eval_func), and
+                        # a cell without a value would look like one not yet calculated
+                        value = 0
+                cell.value = value
 
         return cell.value
 
